@@ -260,6 +260,9 @@ func (s *State) moveElems(dst, src Ptr, elem types.Type, n *Term) {
 		if dst.Obj == nil || src.Obj == nil {
 			s.panicNow("copy through nil slice")
 		}
+		if n.Val > 2048 && s.sparseCopy(dst, src, elem, int(n.Val)) {
+			return
+		}
 		vals := s.readElems(src, elem, int(n.Val))
 		s.writeElems(dst, elem, vals)
 		return
@@ -437,4 +440,36 @@ func zeroOrNil(t types.Type) Value {
 		return nil
 	}
 	return zero(t)
+}
+
+// sparseCopy copies a large range between two raw objects by walking the sparse byte map of the
+// source instead of every byte (memmove semantics: the source range is read first).
+func (s *State) sparseCopy(dst, src Ptr, elem types.Type, n int) bool {
+	if !dst.Obj.Raw || !src.Obj.Raw || dst.SOff != nil || src.SOff != nil || dst.Obj.Arr != nil || src.Obj.Arr != nil || src.Obj.Havoc || dst.Obj.Havoc {
+		return false
+	}
+	nb := n * byteSize(elem)
+	s.checkRawBounds(src, nb)
+	s.checkRawBounds(dst, nb)
+	s.access(src, false)
+	s.access(dst, true)
+	type kv struct {
+		off int
+		b   *Term
+	}
+	var got []kv
+	for off, b := range src.Obj.Bytes {
+		if off >= src.Off && off < src.Off+nb {
+			got = append(got, kv{off - src.Off, b})
+		}
+	}
+	for off := range dst.Obj.Bytes {
+		if off >= dst.Off && off < dst.Off+nb {
+			delete(dst.Obj.Bytes, off)
+		}
+	}
+	for _, e := range got {
+		dst.Obj.Bytes[dst.Off+e.off] = e.b
+	}
+	return true
 }
